@@ -1002,29 +1002,75 @@ class HEntry:
         self.key = key
         self.idx = idx
 
+def _entry_adt(e):
+    return Adt('std::collections::hash_map::Entry', 'Vacant' if e.idx is None else 'Occupied', {0: e})
+
+def _entry_inner(v):
+    v = deref_val(v) if isinstance(v, Ref) else v
+    if isinstance(v, Adt) and last_seg(v.ty) == 'Entry':
+        return v.fields[0]
+    return v
+
 @I.rx(r'(^|::)HashMap::entry$')
 def _hm_entry(m, args, ci):
     hm = deref_val(args[0])
     i = hm.find(m, args[1])
-    return HEntry(hm, args[1], i)
+    return _entry_adt(HEntry(hm, args[1], i))
+
+def _vacant_insert(m, e, v):
+    e.hm.entries.append([e.key, Cell(v)])
+    e.idx = len(e.hm.entries) - 1
+    m.event('hashmap_insert', _show_key(e.key))
+    return Ref(e.hm.entries[e.idx][1], 'v')
 
 @I.rx(r'(^|::)Entry::or_insert_with$')
 def _entry_or_insert_with(m, args, ci):
-    e = args[0]
+    e = _entry_inner(args[0])
     if e.idx is None:
-        v = m.call_closure(args[1], [])
-        e.hm.entries.append([e.key, Cell(v)])
-        e.idx = len(e.hm.entries) - 1
-        m.event('hashmap_insert', _show_key(e.key))
+        return _vacant_insert(m, e, m.call_closure(args[1], []))
     return Ref(e.hm.entries[e.idx][1], 'v')
 
 @I.rx(r'(^|::)Entry::or_insert$')
 def _entry_or_insert(m, args, ci):
-    e = args[0]
+    e = _entry_inner(args[0])
     if e.idx is None:
-        e.hm.entries.append([e.key, Cell(args[1])])
-        e.idx = len(e.hm.entries) - 1
+        return _vacant_insert(m, e, args[1])
     return Ref(e.hm.entries[e.idx][1], 'v')
+
+@I.rx(r'(^|::)VacantEntry::insert$')
+def _vacant_entry_insert(m, args, ci):
+    return _vacant_insert(m, _entry_inner(args[0]), args[1])
+
+@I.rx(r'(^|::)OccupiedEntry::(into_mut|get_mut|get)$')
+def _occupied_get(m, args, ci):
+    e = _entry_inner(args[0])
+    return Ref(e.hm.entries[e.idx][1], 'v')
+
+@I.rx(r'(^|::)OccupiedEntry::insert$')
+def _occupied_insert(m, args, ci):
+    e = _entry_inner(args[0])
+    old = e.hm.entries[e.idx][1].v
+    e.hm.entries[e.idx][1].v = args[1]
+    return old
+
+@I.rx(r'(^|::)OccupiedEntry::(remove|remove_entry)$')
+def _occupied_remove(m, args, ci):
+    e = _entry_inner(args[0])
+    k, cell = e.hm.entries.pop(e.idx)
+    return cell.v if ci.name.endswith('remove') else tuple_(k, cell.v)
+
+@I.rx(r'(^|::)(Entry|VacantEntry|OccupiedEntry)::key$')
+def _entry_key(m, args, ci):
+    e = _entry_inner(args[0])
+    return Ref(Cell(e.key), 'v')
+
+@I.rx(r'(^|::)Entry::and_modify$')
+def _entry_and_modify(m, args, ci):
+    ent = args[0]
+    e = _entry_inner(ent)
+    if e.idx is not None:
+        m.call_closure(args[1], [Ref(e.hm.entries[e.idx][1], 'v')])
+    return ent
 
 def _show_key(k):
     if isinstance(k, Adt) and k.fields:
